@@ -264,6 +264,7 @@ def run_case(h, bn, kind, fname):
     shutil.rmtree(d, ignore_errors=True)
     os.makedirs(d)
     rp, ip, lp = os.path.join(d, "rule.yaml"), os.path.join(d, "input.o" if b["binary"] else "input.s"), os.path.join(d, "lib.yaml")
+    lp2 = os.path.join(d, "lib_of_decoy.yaml")
     libs = [lp] if b["lib"] else None
     results = {}
     old_path = os.environ["PATH"]
@@ -272,6 +273,9 @@ def run_case(h, bn, kind, fname):
         _write(rp, yaml.safe_dump(DECOY_RULE if decoy_rule else b["rule"], sort_keys=False))
         if b["lib"]:
             _write(lp, yaml.safe_dump(LIB, sort_keys=False))
+            # the decoy operation is given ANOTHER macro file that defines the same names with other bodies
+            _write(lp2, yaml.safe_dump({"macros": [{"name": "@lib", "pattern": "zzzzlib"}, {"name": "@r", "pattern": "zzzzr"},
+                                                   {"name": "@undef", "pattern": "zzzzundef"}]}, sort_keys=False))
         if b["binary"]:
             if os.path.isdir(ip):
                 shutil.rmtree(ip)
@@ -301,7 +305,7 @@ def run_case(h, bn, kind, fname):
     for ret, mode in (("bool", "first"), ("list", "all")):
         # decoy at the very same paths first (valid, scanned, not found), then the real files + the fault
         put_valid(decoy_rule=(kind in ("rule", "lib", "control")), decoy_input=(kind in ("input", "env")))
-        dec = api_run(h, rp, ip, b["binary"], libs, ret, mode)
+        dec = api_run(h, rp, ip, b["binary"], [lp2] if b["lib"] else None, ret, mode)
         if dec[0] != "NOTFOUND":
             results.setdefault("_decoy_unexpected", dec)   # judged by the fault run that follows, not here
         put_valid()
